@@ -24,6 +24,10 @@ type EngCase struct {
 	Skip     []string     `json:"skip"`     // diff.skip policy entries (snake case), CLI tier
 	CLI      bool         `json:"cli"`
 	Edits    []string     `json:"edits"`
+	// Source of the desired state (CLI tier): 0 the reference database URL; 1 file://schema.hcl; 2 a project file with a
+	// data "hcl_schema" source and the patterns in the env's exclude attribute; 3 file://schema.sql (with a dev database).
+	// The HCL / SQL documents are written by the real `atlas schema inspect` of the reference database.
+	Source int `json:"source,omitempty"`
 }
 
 // toGM reduces the SQLite model to the names the exclusion semantics care about.
@@ -225,18 +229,52 @@ func checkCLI(c EngCase) (ExOutcome, error) {
 	if err != nil {
 		return out, fmt.Errorf("harness: %v", err)
 	}
-	args := []string{"schema", "apply", "--url", "sqlite://" + cur, "--to", "sqlite://" + ref, "--auto-approve"}
+	to := "sqlite://" + ref
+	switch c.Source {
+	case 1, 2:
+		ri := sb.Run("schema", "inspect", "--url", "sqlite://"+ref)
+		if ri.Code != 0 {
+			return out, fmt.Errorf("harness: schema inspect of the reference database failed: %v", ri)
+		}
+		sb.WriteFile("schema.hcl", ri.Stdout)
+		to = "file://schema.hcl"
+	case 3:
+		ri := sb.Run("schema", "inspect", "--url", "sqlite://"+ref, "--format", "{{ sql . }}")
+		if ri.Code != 0 {
+			return out, fmt.Errorf("harness: schema inspect of the reference database failed: %v", ri)
+		}
+		sb.WriteFile("schema.sql", ri.Stdout)
+		to = "file://schema.sql"
+	}
+	args := []string{"schema", "apply", "--url", "sqlite://" + cur, "--to", to, "--auto-approve"}
+	if c.Source != 0 {
+		args = append(args, "--dev-url", "sqlite://dev?mode=memory")
+	}
 	for _, p := range c.Patterns {
 		args = append(args, "--exclude", p.String())
 	}
+	skipBlock := ""
 	if len(c.Skip) > 0 {
 		var b strings.Builder
-		b.WriteString("env \"x\" {\n  diff {\n    skip {\n")
+		b.WriteString("  diff {\n    skip {\n")
 		for _, k := range c.Skip {
 			fmt.Fprintf(&b, "      %s = true\n", k)
 		}
-		b.WriteString("    }\n  }\n}\n")
-		sb.WriteFile("atlas.hcl", b.String())
+		b.WriteString("    }\n  }\n")
+		skipBlock = b.String()
+	}
+	switch {
+	case c.Source == 2:
+		// everything comes from the project file: the data source, the target URL and the exclude patterns
+		var pats []string
+		for _, p := range c.Patterns {
+			pats = append(pats, fmt.Sprintf("%q", p.String()))
+		}
+		sb.WriteFile("atlas.hcl", fmt.Sprintf("data \"hcl_schema\" \"app\" {\n  path = \"schema.hcl\"\n}\nenv \"x\" {\n  src = data.hcl_schema.app.url\n  url = %q\n  dev = \"sqlite://dev?mode=memory\"\n  exclude = [%s]\n%s}\n",
+			"sqlite://"+cur, strings.Join(pats, ", "), skipBlock))
+		args = []string{"schema", "apply", "--env", "x", "-c", "file://atlas.hcl", "--auto-approve"}
+	case len(c.Skip) > 0:
+		sb.WriteFile("atlas.hcl", "env \"x\" {\n"+skipBlock+"}\n")
 		args = append(args, "--env", "x", "-c", "file://atlas.hcl")
 	}
 	r := sb.Run(args...)
